@@ -189,6 +189,7 @@ package simpledb
 //@   replay compaction_cycle
 //@   requires db.sstableManager != nil && db.sstableManager.managerLock != nil
 //@   requires forall t :: 0 <= t && t < len(db.sstableManager.allSSTableReaders) ==> db.sstableManager.allSSTableReaders[t] != nil
+//@   requires [comparator-given] db.cmp != nil
 //@   // (a failing Close of an input reader after the flag was written returns both a result and an error; the caller checks the error first)
 //@   exit [C11:merge-error-reported] called(MergeCompact, 0) && callres(MergeCompact, 0, 0) != nil ==> err != nil
 //@   exit [C11:output-close-error-reported] (called(SSTableStreamWriter.Close, 0) && callres(SSTableStreamWriter.Close, 0, 0) != nil) ||
